@@ -46,7 +46,11 @@ BitOp(op, a, b) == LET neg == CASE op = "bitand" -> a < 0 /\ b < 0 [] op = "bito
 RECURSIVE Isqrt(_, _)
 Isqrt(v, g) == IF (g + 1) * (g + 1) <= v THEN Isqrt(v, g + 1) ELSE g
 
-BinOps == {"add", "sub", "mul", "div", "rem", "div_floor", "mod_floor", "div_euclid", "rem_euclid", "div_ceil", "bitand", "bitor", "bitxor", "gcd", "lcm"}
+BinOps == {"add", "sub", "mul", "div", "rem", "div_floor", "mod_floor", "div_euclid", "rem_euclid", "div_ceil", "bitand", "bitor", "bitxor", "gcd", "lcm",
+           "next_multiple_of", "prev_multiple_of", "abs_sub"}
+\* floored remainder with the sign of the divisor (TLC's \div is only used with a positive divisor)
+FloorDiv(a, b) == IF b > 0 THEN a \div b ELSE (-a) \div (-b)
+ModFloor(a, b) == a - FloorDiv(a, b) * b
 \* value of a binary operation, or PANIC
 BinVal(op, a, b, unsigned) ==
     CASE op = "add" -> a + b
@@ -61,6 +65,10 @@ BinVal(op, a, b, unsigned) ==
       [] op = "rem_euclid" -> a - EQ(a, b) * b
       [] op = "div_ceil" -> CQ(a, b)
       [] op \in {"bitand", "bitor", "bitxor"} -> BitOp(op, a, b)
+      [] op \in {"next_multiple_of", "prev_multiple_of"} /\ b = 0 -> PANIC
+      [] op = "next_multiple_of" -> LET m == ModFloor(a, b) IN IF m = 0 THEN a ELSE a + (b - m)     \* the multiple of b reached by moving from a in the direction of b's sign
+      [] op = "prev_multiple_of" -> a - ModFloor(a, b)
+      [] op = "abs_sub" -> IF a > b THEN a - b ELSE 0
       [] op = "gcd" -> GcdN(Abs(a), Abs(b))
       [] op = "lcm" -> IF a = 0 \/ b = 0 THEN 0 ELSE Abs(a * b) \div GcdN(Abs(a), Abs(b))
 UnOps == {"neg", "abs", "signum", "not", "sqrt", "inc", "dec", "set_zero", "set_one"}
@@ -82,6 +90,7 @@ Init == /\ regs \in [1..N -> Seeds] /\ \A r \in 1..NU : regs[r] >= 0
 
 Bin(op, form, a, b, d) ==
     /\ Room /\ IsU(a) = IsU(b) /\ IsU(a) = IsU(d) /\ a # b
+    /\ (op = "abs_sub" => ~IsU(a))
     /\ LET val == BinVal(op, regs[a], regs[b], IsU(a)) IN
        /\ Small(val)
        /\ regs' = [regs EXCEPT ![d] = IF val = PANIC THEN 0 ELSE val]
@@ -218,7 +227,7 @@ Convert(a, d) ==
                post |-> [r \in 1..N |-> regs'[r]], ret |-> 0, txt |-> <<>>])
 
 Steps ==
-    \/ \E op \in BinOps, form \in 0..3, a, b, d \in 1..N : Bin(op, form, a, b, d)
+    \/ \E op \in BinOps, form \in 0..4, a, b, d \in 1..N : Bin(op, form, a, b, d)
     \/ \E op \in UnOps, form \in 0..1, a, d \in 1..N : Un(op, form, a, d)
     \/ \E op \in {"shl", "shr"}, form \in 0..2, a, d \in 1..N, k \in (-1)..5 : Shift(op, form, a, d, k)
     \/ \E a \in 1..N, k \in 0..6, v \in BOOLEAN : SetBit(a, k, v)
